@@ -204,9 +204,12 @@ func capMax() int64 {
 func (s *refSt) envelope() int64 {
 	end := s.seedEnd
 	for i, t := range s.fails {
-		allow := capMax()
-		if g := i + s.seedGen; g < 40 && cfgMin<<uint(g) < allow {
-			allow = cfgMin << uint(g)
+		allow := cfgMin
+		for g := i + s.seedGen; g > 0 && allow < capMax(); g-- {
+			allow *= 2
+		}
+		if allow > capMax() {
+			allow = capMax()
 		}
 		if t+allow > end {
 			end = t + allow
